@@ -28,6 +28,8 @@ CONSTANTS NA,          \* number of azimuths (1 = traditional)
           MaxIts,      \* set of max_iterations values
           TdMasks,     \* set of window sets a time-domain rejection may select
           InitSel,     \* set of curve-id assignments explored (sequence over azimuths of sequences over windows)
+          Boxes,       \* set of <<fl, fh, al, ah>>: boxes an analyst may draw in the interactive manual rejection
+                       \* (frequency bounds on the half-step lattice, amplitude bounds in half levels, all strict)
           SThr,        \* rational: 0.01 / (Hz per grid step), threshold of |sigma_after - sigma_before| in grid steps
           DFree,       \* TRUE: lognormal fn - the criterion on |mean fn - mean-curve peak| involves exp() of
                        \* rationals and is left open (both outcomes) in the P tier; everything else stays exact
@@ -215,6 +217,28 @@ ManualReject(a, S) ==
     /\ UNCHANGED <<cv, rng, mrng, kwe, pk>>
     /\ last' = [op |-> "ManualReject", a |-> a, S |-> S]
 
+\* manual_window_rejection(search range r) driven with one drawn box b and the click on "continue":
+\* entry = update_peaks_bounded(r, {}) on the object (cached peaks kept iff the range is unchanged), then every
+\* window (of every azimuth) whose curve has a sample strictly inside the box loses both accept flags;
+\* nothing is re-accepted by the box.  The figure it draws needs the statistics to be defined before and after.
+Hit(a, w, b) == \E j \in 1..NF : 2 * j > b[1] /\ 2 * j < b[2] /\ 2 * Curve(a, w)[j] > b[3] /\ 2 * Curve(a, w)[j] < b[4]
+Drawable(a, p, mw, mp, r) ==
+    /\ Cardinality({ w \in Win : mp[w] /\ p[a][w] # 0 }) >= 2
+    /\ Cardinality({ w \in Win : mw[w] }) >= 2
+    /\ 0 \notin McPeaksP(a, { w \in Win : mw[w] }, r)
+ManualSession(r, b) ==
+    LET noop == r = rng /\ kwe
+        p0   == IF noop THEN pk ELSE PeaksI(r)
+        w0   == IF noop THEN vw ELSE MaskVW(p0)
+        v0   == IF noop THEN vp ELSE MaskVP(p0)
+        w1   == [a \in Az |-> [w \in Win |-> w0[a][w] /\ ~Hit(a, w, b)]]
+        v1   == [a \in Az |-> [w \in Win |-> v0[a][w] /\ ~Hit(a, w, b)]]
+    IN  /\ \A a \in Az : Drawable(a, p0, w0[a], v0[a], r) /\ Drawable(a, p0, w1[a], v1[a], r)
+        /\ rng' = r /\ mrng' = r /\ kwe' = kwe /\ pk' = p0
+        /\ vw' = w1 /\ vp' = v1
+        /\ UNCHANGED cv
+        /\ last' = [op |-> "ManualSession", r |-> r, b |-> b]
+
 \* frequency_domain_window_rejection(n, max_iterations, search range r, kw):
 \* entry = UpdateRange on every inner object, then the iteration per azimuth.
 \* out[a] : outcome of azimuth a.  `metaUpdated`: whether the container's meta
@@ -254,6 +278,7 @@ Next ==
     \/ \E r \in Ranges, kw \in BOOLEAN : UpdateRange(r, kw)
     \/ \E S \in TdMasks : TdReject(S)
     \/ \E a \in Az, w \in Win : ManualReject(a, {w})
+    \/ \E r \in Ranges, b \in Boxes : ManualSession(r, b)
     \/ \E r \in Ranges, kw \in BOOLEAN, n \in NSet, mi \in MaxIts : Fdwra(r, kw, n, mi)
 
 Spec == Init /\ [][Next]_vars
@@ -296,6 +321,10 @@ FdwraStep ==
                    [st |-> "ok", it |-> (CHOOSE o \in Fdwra1("I", a, p0, r, last'.n, last'.mi, w0[a], v0[a]) : TRUE).it,
                     vw |-> vw'[a], vp |-> vp'[a]] \in Fdwra1("P", a, p0, r, last'.n, last'.mi, w0[a], v0[a])
     ]_vars
+
+\* manual rejection never re-accepts (w.r.t. the state after its entry peak search) and hits exactly the boxed windows
+ManualStep == [][ last'.op = "ManualSession" =>
+                    \A a \in Az, w \in Win : (~vw'[a][w] \/ ~Hit(a, w, last'.b)) /\ (~vp'[a][w] \/ ~Hit(a, w, last'.b)) ]_vars
 
 \* C13: after a time-domain rejection both masks equal the selection on every azimuth
 TdStep == [][ last'.op = "TdReject" =>
